@@ -102,7 +102,8 @@ Proof.
   rewrite E. reflexivity.
 Qed.
 
-Theorem stack_nil_receiver :
+(* a model evaluation, not a property theorem: the nil *Stack guards *)
+Remark stack_nil_receiver :
   stack_Peek None = Ok (0%Z, false) /\ stack_Pop None = Ok (0%Z, false, None).
 Proof. split; reflexivity. Qed.
 
@@ -253,4 +254,54 @@ Proof.
   - rewrite qspec_from_app, qspec_enq. cbn [fst snd app]. rewrite qspec_deq by reflexivity. reflexivity.
   - rewrite sspec_from_app, sspec_push. cbn [fst snd]. rewrite app_nil_r.
     rewrite sspec_pop by (rewrite rev_length; reflexivity). reflexivity.
+Qed.
+
+(* ---- order under every interleaving; Peek agrees with the next removal ---- *)
+(* whatever the interleaving: (values dequeued so far) ++ (contents) = (initial contents) ++ (values enqueued) *)
+Lemma qspec_conservation ops : forall st,
+  deq_vals ops (fst (qspec_from st ops)) ++ snd (qspec_from st ops) = st ++ enq_vals ops.
+Proof.
+  induction ops as [|op t IH]; intro st; cbn [qspec_from].
+  - cbn. rewrite app_nil_r. reflexivity.
+  - destruct op; cbn [qspec_step].
+    + specialize (IH (st ++ [v])). destruct (qspec_from (st ++ [v]) t) as [os st2]. cbn [fst snd deq_vals enq_vals] in *.
+      rewrite IH, <- app_assoc. reflexivity.
+    + destruct st as [|x u].
+      * specialize (IH []). destruct (qspec_from [] t) as [os st2]. cbn [fst snd deq_vals enq_vals] in *. exact IH.
+      * specialize (IH u). destruct (qspec_from u t) as [os st2]. cbn [fst snd deq_vals enq_vals] in *.
+        simpl. f_equal. exact IH.
+    + destruct st as [|x u].
+      * specialize (IH []). destruct (qspec_from [] t) as [os st2]. cbn [fst snd deq_vals enq_vals] in *. exact IH.
+      * specialize (IH (x :: u)). destruct (qspec_from (x :: u) t) as [os st2]. cbn [fst snd deq_vals enq_vals] in *. exact IH.
+    + specialize (IH st). destruct (qspec_from st t) as [os st2]. cbn [fst snd deq_vals enq_vals] in *. exact IH.
+Qed.
+
+(* FIFO for the real model, under every interleaving: the values the successful Dequeues return are,
+   in order, a prefix of the values enqueued; what is left is the queue's content *)
+Theorem queue_order ops :
+  exists rest, enq_vals ops = deq_vals ops (fst (qrun ops)) ++ rest.
+Proof.
+  destruct (queue_fifo ops) as [E _]. rewrite E.
+  exists (snd (qspec_from [] ops)). symmetry. apply (qspec_conservation ops []).
+Qed.
+
+Corollary queue_kth ops k v :
+  nth_error (deq_vals ops (fst (qrun ops))) k = Some v -> nth_error (enq_vals ops) k = Some v.
+Proof.
+  intro H. destruct (queue_order ops) as (rest & ->). rewrite nth_error_app1; auto.
+  apply nth_error_Some. congruence.
+Qed.
+
+(* Peek returns what the next Dequeue / Pop returns, and removes nothing *)
+Theorem queue_peek_dequeue ops :
+  exists o, fst (qrun (ops ++ [QPeek; QDequeue])) = fst (qrun ops) ++ [o; o].
+Proof.
+  destruct (queue_fifo (ops ++ [QPeek; QDequeue])) as [-> _]. destruct (queue_fifo ops) as [-> _].
+  rewrite qspec_from_app. cbn [fst]. destruct (snd (qspec_from [] ops)) as [|x u]; cbn; eauto.
+Qed.
+
+Theorem stack_peek_pop newcap ops :
+  exists o, fst (srun newcap (ops ++ [SPeek; SPop])) = fst (srun newcap ops) ++ [o; o].
+Proof.
+  rewrite !stack_lifo, sspec_from_app. cbn [fst]. destruct (snd (sspec_from [] ops)) as [|x u]; cbn; eauto.
 Qed.
